@@ -4283,13 +4283,6 @@ impl Handler {
         };
         let effective_auth = refreshed_identity.as_ref().or(auth);
 
-        // Authorization check: if auth is provided, validate the statement
-        if let Some(identity) = effective_auth {
-            if let Ok(ref stmt) = statement::parse_statement(trimmed) {
-                crate::auth::authorize_statement(&identity.role, stmt)?;
-            }
-        }
-
         // Protect _internal KG from direct access.
         // Block both explicit commands AND sessions already bound to _internal.
         let session_kg_owned: Option<String> = if knowledge_graph.is_none() {
@@ -4309,7 +4302,14 @@ impl Handler {
                 ));
             }
         }
-        if let Ok(ref stmt) = statement::parse_statement(trimmed) {
+
+        // Authorization of one statement: global role, _internal guard, then the
+        // per-KG role on every knowledge graph the statement may act on.
+        let authorize = |stmt: &statement::Statement, current_kgs: &[&str]| -> Result<(), String> {
+            if let Some(identity) = effective_auth {
+                crate::auth::authorize_statement(&identity.role, stmt)?;
+            }
+
             match stmt {
                 statement::Statement::Meta(
                     statement::MetaCommand::KgUse(name)
@@ -4323,25 +4323,23 @@ impl Handler {
                 }
                 _ => {}
             }
-        }
 
-        // Per-KG authorization: check if user has access to the target KG.
-        if let Some(identity) = effective_auth {
-            if identity.role != crate::auth::Role::Admin {
-                if let Ok(ref stmt) = statement::parse_statement(trimmed) {
+            // Per-KG authorization: check if user has access to the target KG.
+            if let Some(identity) = effective_auth {
+                if identity.role != crate::auth::Role::Admin {
                     // Determine which KG the operation targets
-                    let target_kg = match stmt {
+                    let target_kgs: Vec<&str> = match stmt {
                         statement::Statement::Meta(
                             statement::MetaCommand::KgDrop(name)
                             | statement::MetaCommand::KgUse(name),
-                        ) => Some(name.as_str()),
+                        ) => vec![name.as_str()],
                         statement::Statement::Meta(
                             statement::MetaCommand::KgAclGrant { ref kg_name, .. }
                             | statement::MetaCommand::KgAclRevoke { ref kg_name, .. },
-                        ) => Some(kg_name.as_str()),
-                        statement::Statement::Meta(statement::MetaCommand::KgAclList(
-                            ref kg_opt,
-                        )) => kg_opt.as_deref(),
+                        ) => vec![kg_name.as_str()],
+                        statement::Statement::Meta(statement::MetaCommand::KgAclList(Some(
+                            ref kg_name,
+                        ))) => vec![kg_name.as_str()],
                         // KG create doesn't target an existing KG; list/show/help are global
                         statement::Statement::Meta(
                             statement::MetaCommand::KgCreate(_)
@@ -4350,12 +4348,12 @@ impl Handler {
                             | statement::MetaCommand::Help
                             | statement::MetaCommand::Quit
                             | statement::MetaCommand::Status,
-                        ) => None,
+                        ) => Vec::new(),
                         // All other statements operate on the current KG
-                        _ => current_kg,
+                        _ => current_kgs.to_vec(),
                     };
 
-                    if let Some(kg) = target_kg {
+                    for kg in target_kgs {
                         if let Some(kg_role) =
                             self.get_kg_role_for_user(kg, &identity.username, &identity.role)
                         {
@@ -4365,6 +4363,32 @@ impl Handler {
                         }
                     }
                 }
+            }
+            Ok(())
+        };
+
+        // Authorize everything this request may execute before executing any of it:
+        // the whole text parsed as one statement (what the fast paths and the session
+        // interception below act on) and every logical line (query_program() executes
+        // the program line by line, so a program is not authorized by its first line).
+        // A `.kg use` / `.kg create` line changes the current KG for the lines after it
+        // only if it succeeds, so those lines must be allowed on the previous KG too.
+        let mut current_kgs: Vec<&str> = current_kg.into_iter().collect();
+        if let Ok(ref stmt) = statement::parse_statement(trimmed) {
+            authorize(stmt, &current_kgs)?;
+        }
+        let program_text = join_continuation_lines(&strip_comments(&program));
+        let line_statements: Vec<statement::Statement> = program_text
+            .lines()
+            .filter_map(|line| statement::parse_statement(line.trim()).ok())
+            .collect();
+        for stmt in &line_statements {
+            authorize(stmt, &current_kgs)?;
+            if let statement::Statement::Meta(
+                statement::MetaCommand::KgUse(name) | statement::MetaCommand::KgCreate(name),
+            ) = stmt
+            {
+                current_kgs.push(name.as_str());
             }
         }
 
@@ -4444,10 +4468,7 @@ impl Handler {
 
                     // KG ACL management
                     MetaCommand::KgAclList(ref kg_filter) => {
-                        let effective_kg = kg_filter
-                            .as_deref()
-                            .or(knowledge_graph.as_deref())
-                            .unwrap_or("default");
+                        let effective_kg = kg_filter.as_deref().or(current_kg).unwrap_or("default");
                         return self
                             .handle_kg_acl_list(effective_kg)
                             .map(|msg| self.message_result(&msg));
